@@ -88,9 +88,10 @@ func VerifC13Tags() {
 		tagCache:       cache.NewTagCache(),
 		resourcePool:   newResourcePool(thrift.NewTCompactProtocolFactory()),
 	}
-	lens := [][2]int{{1, 1}, {1, 3}, {3, 1}}
-	l1 := lens[verifrt.Choose("shape1", 3)]
-	l2 := lens[verifrt.Choose("shape2", 3)]
+	// (key length, value length): every shape with 1..3 key bytes, 0..3 value bytes, at most 4 in all
+	lens := [][2]int{{1, 0}, {1, 1}, {1, 2}, {1, 3}, {2, 0}, {2, 1}, {2, 2}, {3, 0}, {3, 1}}
+	l1 := lens[verifrt.Choose("shape1", len(lens))]
+	l2 := lens[verifrt.Choose("shape2", len(lens))]
 	k1, v1 := verifrt.String("k", l1[0]), verifrt.String("v", l1[1])
 	k2, v2 := verifrt.String("k", l2[0]), verifrt.String("v", l2[1])
 	tags1, tags2 := map[string]string{k1: v1}, map[string]string{k2: v2}
@@ -257,4 +258,39 @@ func VerifC13WideTags() {
 		{name: "other", kind: m3thrift.MetricType_COUNTER, count: z, tags: map[string]string{"p": "q", "r": "s"}, t1: t1},
 	}, t0)
 	verifrt.Reach("c13-wide")
+}
+
+// VerifC13TwoDestinations: two collectors, the send to the second one fails for one batch.  The
+// healthy first collector must still receive every value exactly once (nothing re-sent to it).
+func VerifC13TwoDestinations() {
+	a, b := verifrt.NewUDPSink(), verifrt.NewUDPSink()
+	rr, err := NewReporter(Options{HostPorts: []string{a, b}, Service: "svc", Env: "test", Protocol: Binary, MaxQueueSize: 8, MaxPacketSizeBytes: 1440})
+	verifrt.Assert("c13.two.constructor-ok", err == nil)
+	if err != nil {
+		verifrt.Assume(false)
+	}
+	r := rr.(*reporter)
+	c := r.AllocateCounter("c", nil)
+	v1, v2 := verifrt.Int64("v"), verifrt.Int64("v")
+	verifrt.Assume(v1 != v2)
+	verifrt.SinkFault(b, true)
+	c.ReportCount(v1)
+	r.metCh <- sizedMetric{} // flush marker: this batch meets the failing destination
+	for r.numBatches.Load() < 1 {
+		time.Sleep(time.Millisecond)
+	}
+	verifrt.SinkFault(b, false)
+	c.ReportCount(v2)
+	verifrt.Assert("c13.two.close-ok", r.Close() == nil)
+	n1, n2 := 0, 0
+	for _, bt := range vDecode(a, Binary) {
+		for _, m := range bt.batch.Metrics {
+			if m.Name == "c" {
+				n1 += int(verifrt.IteInt64(m.Value.Count == v1, 1, 0))
+				n2 += int(verifrt.IteInt64(m.Value.Count == v2, 1, 0))
+			}
+		}
+	}
+	verifrt.Assert("c13.two.healthy-destination-gets-each-value-exactly-once", verifrt.And(n1 == 1, n2 == 1))
+	verifrt.Reach("c13-two-destinations")
 }
